@@ -122,6 +122,55 @@ static int test_wait_releases(void)
     return 0;
 }
 
+// ---- a join that gives up after a while is not a join: for the deterministic scheduler (and for acquire.c) "joined" means "gone".
+// The time-limited joins of glibc are wrapped at link time; here time has always run out already (or the thread has ended).
+#include <errno.h>
+int __real_pthread_timedjoin_np(pthread_t t, void** r, const struct timespec* ts);
+int __real_pthread_tryjoin_np(pthread_t t, void** r);
+int __real_pthread_clockjoin_np(pthread_t t, void** r, clockid_t c, const struct timespec* ts);
+int __wrap_pthread_tryjoin_np(pthread_t t, void** r) { return __real_pthread_tryjoin_np(t, r); }
+int __wrap_pthread_timedjoin_np(pthread_t t, void** r, const struct timespec* ts) { (void)ts; int e = __real_pthread_tryjoin_np(t, r); return e == EBUSY ? ETIMEDOUT : e; }
+int __wrap_pthread_clockjoin_np(pthread_t t, void** r, clockid_t c, const struct timespec* ts) { (void)c; (void)ts; int e = __real_pthread_tryjoin_np(t, r); return e == EBUSY ? ETIMEDOUT : e; }
+
+// ---- a notification that arrives while a thread is on its way into the wait is harmless; the next one still wakes it ----------------
+// (pthread_cond_wait is wrapped at link time so that the waiter can be held right at its entry, lock still held)
+int __real_pthread_cond_wait(pthread_cond_t* c, pthread_mutex_t* m);
+static atomic_int g_hold_waiter, g_waiter_at_entry;
+int __wrap_pthread_cond_wait(pthread_cond_t* c, pthread_mutex_t* m)
+{
+    if (atomic_load(&g_hold_waiter)) {
+        atomic_store(&g_waiter_at_entry, 1);
+        for (int spin = 0; spin < 3000 && atomic_load(&g_hold_waiter); ++spin) msleep(1);
+    }
+    return __real_pthread_cond_wait(c, m);
+}
+static int test_notify_during_wait_entry(void)
+{
+    for (int rep = 0; rep < 3; ++rep) {
+        struct thread t;
+        lock_init(&g_lock); condition_variable_init(&g_cv);
+        g_flag = 0; atomic_store(&g_awake, 0); atomic_store(&g_waiting, 0); atomic_store(&g_waiter_at_entry, 0);
+        atomic_store(&g_hold_waiter, 1);
+        thread_init(&t); thread_create(&t, waiter, 0);
+        for (int spin = 0; spin < 2000 && !atomic_load(&g_waiter_at_entry); ++spin) msleep(1);
+        condition_variable_notify_all(&g_cv);      // a late notification of something that happened earlier: nobody is asleep yet
+        atomic_store(&g_hold_waiter, 0);           // the waiter goes to sleep now
+        msleep(30);
+        lock_acquire(&g_lock); g_flag = 1; lock_release(&g_lock);
+        condition_variable_notify_all(&g_cv);      // the notification that matters
+        for (int spin = 0; spin < 1500 && !atomic_load(&g_awake); ++spin) msleep(1);
+        if (!atomic_load(&g_awake)) {
+            printf("ORACLE notify_all-after-an-early-notification-did-not-wake-the-waiter rep=%d\n", rep);
+            for (int k = 0; k < 100 && !atomic_load(&g_awake); ++k) { pthread_cond_broadcast(&g_cv.inner_); msleep(5); }
+            thread_join(&t);
+            return 1;
+        }
+        thread_join(&t);
+    }
+    printf("ok notify-during-wait-entry\n");
+    return 0;
+}
+
 // ---- events: a notification is latched until one waiter has taken it (auto-reset); a wait blocks until then ---------------------------
 static struct event g_ev;
 static atomic_int g_ev_passed;
@@ -174,6 +223,7 @@ int main(void)
     bad |= test_notify_all();
     bad |= test_mutex();
     bad |= test_wait_releases();
+    bad |= test_notify_during_wait_entry();
     bad |= test_event();
     bad |= test_clock();
     return bad ? 1 : 0;
